@@ -138,6 +138,15 @@ def gen_c15_kd(rnd, tier):
         g = max(3, int(round(n ** (1.0 / dim))) + 1)
         pts = [[rnd.randint(0, g), rnd.randint(0, g), rnd.randint(0, g) if dim == 3 else 0] for _ in range(n)]
         out.append(_kd(rnd, pts, dim, False, 6, 0, 'gridded_large'))
+    # gridded, listed column by column with more than one bucket per column, as a partial tree over every index in listing order and
+    # over a sub-range (wrong answers here are F20; anything else - no answer at all, a panic - is not)
+    for dim in (2, 3):
+        rows = rnd.randint(34, 40 if quick else 70)
+        pts = [[x, y, z] for x in range(3) for z in (range(2) if dim == 3 else (0,)) for y in range(rows)]
+        r = _kd(rnd, pts, dim, True, 5, 0, 'gridded_columns')
+        r['sub'] = list(range(len(pts))) if dim == 2 else list(range(rows // 2, len(pts) - 3))
+        r['ks'] = sorted(set([1, 2, 5, 33, len(r['sub']), len(r['sub']) + 1]))
+        out.append(r)
     return out
 
 
